@@ -638,6 +638,11 @@ func GenPlan(w *World, seed uint64, tier string) *Plan {
 	if _, ok := plan.Params["sticky"]; !ok {
 		plan.Params["sticky"] = []int64{50, 80, 95}[rng.Intn(3)]
 	}
+	// sync.Pool for simulated goroutines: always empty, or a LIFO stack that
+	// hits whenever it can (state carried from one use to the next)
+	if _, ok := plan.Params["pool_reuse"]; !ok {
+		plan.Params["pool_reuse"] = int64(rng.Intn(2))
+	}
 	return plan
 }
 
@@ -687,6 +692,7 @@ func execInBubble(w *World, plan *Plan, trace bool) {
 	// scheduling point (see the runtime patch): the schedule must not depend on
 	// whether a native worker was faster than its consumer
 	runtime.GosimAlwaysPostChan(len(w.Native) > 0)
+	runtime.GosimPoolReuse(plan.P("pool_reuse", 0) == 1)
 	s.disabled = plan.P("no_sched", 0) == 1
 	s.trace = os.Getenv("GOSIM_SCHEDTRACE") != ""
 	r := &Run{Plan: plan, World: w, Rng: rand.New(rand.NewSource(int64(mix(seed, 3)))),
